@@ -36,7 +36,58 @@ def plan(tier, seed):
     m = 64 if tier == "quick" else 3000
     units += [{"lo": lo, "hi": min(n + m, lo + per), "nops": nops, "profile": "sat"} for lo in range(n, n + m, per)]
     units += [{"kind": "rejected", "shard": i, "of": 8} for i in range(8)]
+    units += [{"kind": "accepted", "shard": i, "of": 8} for i in range(8)]
     return units
+
+
+def run_accepted(unit, tier, seed, acc):
+    """'attribute values inside the lexical space of their type', swept rather than sampled: every in-domain value of every
+    row of the C09 property table (every member of every enumeration a property takes, the bounds of every numeric one) is
+    assigned on a fresh object, alone and after another valid value; when the call is accepted the part(s) holding the object
+    are re-validated."""
+    from lxml import etree
+    from props import c09
+    from vlib import env, histories, xsdkit
+
+    t = c09.T()
+    rows = [r for i, r in enumerate(t.ROWS) if i % unit["of"] == unit["shard"]]
+    for row in rows:
+        for idx, (v, vcls) in enumerate(c09.ok_values(row)):
+            prs = c09.new_deck()
+            try:
+                s = c09.fresh_slide(prs, row, env.rng("C03acc", row.id, idx))
+                obj = c09.resolve(row.path, prs, s)
+            except Exception:  # noqa
+                acc.count("accepted:fixture_failed")
+                continue
+            primed = c09.pick_prime(row, obj) if idx % 2 == 1 else t.NOPRIME
+            if primed is not t.NOPRIME:
+                try:
+                    row.set(obj, primed)
+                except Exception:  # noqa
+                    pass
+            roots = [prs._element] if row.path.startswith("prs") else [s._element]
+            if ".chart" in row.path:
+                roots.append(c09.resolve(row.path[: row.path.index(".chart") + 6], prs, s)._chartSpace)
+            before = [xsdkit.validate_part(etree.tostring(r))[0] for r in roots]
+            try:
+                row.set(obj, v)
+            except Exception:  # noqa  (an in-domain value refused: C09's business)
+                acc.count("accepted:value_was_refused")
+                continue
+            acc.count("accepted_calls_checked")
+            acc.hit("accepted:" + row.id)
+            for r, b in zip(roots, before):
+                after = xsdkit.validate_part(etree.tostring(r))[0]
+                if after is None or b is None:
+                    continue
+                for msg in after - b:
+                    acc.violation(
+                        "invalid-xml:accepted:%s:%s" % (row.id, histories._msg_class(msg)),
+                        "%s = %s (%s) left a new schema error: %s" % (row.id, c09.short(v), "after %s" % c09.short(primed) if primed is not t.NOPRIME else "fresh", msg[:240]),
+                        {"row": row.id, "value": c09.enc(v), "idx": idx, "accepted": True},
+                    )
+            acc.case(desc=("accepted", row.id, c09.enc(v)), nontrivial=True, cls="accepted-value")
 
 
 def run_rejected(unit, tier, seed, acc):
@@ -99,6 +150,8 @@ def run_unit(unit, tier, seed, acc):
 
     if unit.get("kind") == "rejected":
         return run_rejected(unit, tier, seed, acc)
+    if unit.get("kind") == "accepted":
+        return run_accepted(unit, tier, seed, acc)
     histories.run_histories(unit.get("profile", "xml"), {"C03"}, unit, tier, seed, acc, save_every=None)
 
 
@@ -106,7 +159,7 @@ def replay(w, acc):
     from vlib import histories
 
     if "row" in w:
-        run_rejected({"shard": 0, "of": 1}, "quick", 0, acc)
+        (run_accepted if w.get("accepted") else run_rejected)({"shard": 0, "of": 1}, "quick", 0, acc)
         acc.violations[:] = [v for v in acc.violations if v["witness"]["row"] == w["row"]]
         print([(v["key"], v["what"][:300]) for v in acc.violations])
         return
